@@ -556,19 +556,49 @@ def c08_case(ctx, seed):
     sc = {"id": "C08e-%d" % seed, "sources": {"in.c": "// in\n"}, "stmts": [], "pools": {}, "defaults": []}
     for i in range(n):
         sc["stmts"].append(St("s%d" % i, ["o%d.o" % i], ins=["in.c"]))
+    # a generator statement in the middle of the graph (a generated configuration header): ninja closes the build log
+    # before running it and re-opens it afterwards; everything recorded after that must still reach the disk
+    with_gen = rng.random() < 0.6
+    if with_gen:
+        sc["sources"]["gen.in"] = "// 0\n"
+        g0 = sc["stmts"][0]
+        g0["generator"] = True
+        g0["ins"] = ["gen.in"]
+        for s in sc["stmts"][1:]:
+            if rng.random() < 0.5:
+                s["ins"] = s["ins"] + [g0["outs"][0]]
     t = Tree(sc)
-    rep = {"seed": seed}
+    rep = {"seed": seed, "generator_statement": with_gen}
     what = "e2e log scenario %d" % seed
     try:
         rounds = rng.randint(4, 6)
+        prev = {}
         for r in range(rounds):
             for s in sc["stmts"]:
                 s["ver"] += 1
+            if with_gen:
+                sc["sources"]["gen.in"] = "// %d\n" % (r + 1)
             t.install(sc)
+            t.events(clear=True)
             rc, so, se = t.run(["-j8"])
             if rc != 0:
                 ctx.inconclusive += 1
                 return
+            # every command that ran in this session has its (new) record on disk
+            cur = parse_build_log(t.read(".ninja_log") or b"")[1]
+            ran = {e["id"] for e in t.events() if e["e"] == "S"}
+            for s in sc["stmts"]:
+                o = s["outs"][0]
+                if o not in ran:
+                    continue
+                ctx.count("e2e_log_session_record_checks")
+                rec = cur.get(o.encode())
+                if rec is None or (not s["generator"] and prev.get(o) is not None and rec[0] == prev[o]):
+                    ctx.violation("C08/e2e-record-not-persisted/%s" % ("with-generator-edge" if with_gen else "plain"),
+                                  "%s, session %d: the command of %s ran (new command line) but the log on disk has %s" %
+                                  (what, r, o, "no record" if rec is None else "only the record of the previous command"), rep)
+                    return
+            prev = {k.decode(): v[0] for k, v in cur.items()}
         log = t.read(".ninja_log")
         nrec = len(build_log_records(log))
         before = parse_build_log(log)[1]
@@ -719,6 +749,13 @@ def c16_rsp_case(ctx, seed):
                 if s["kind"] == "cmd" and s["rsp"]:
                     s["rsp_content"] = rng.choice(["$in", "$in_newline"])
             t.install(sc)
+        # a response file whose content evaluates to nothing is still a response file: written (empty) before the command
+        empties = [s for s in rsps if rng.random() < 0.25]
+        if empties:
+            for s in empties:
+                s["rsp_content"] = "$empty"          # a variable nobody defines: the content evaluates to nothing
+            t.install(sc)
+            ctx.count("e2e_rsp_statements_with_empty_content", len(empties))
         rc, so, se = t.run(["-j4"])
         ctx.evaluations += 1
         if rc is None:
@@ -863,3 +900,95 @@ def c05_case(ctx, seed):
         ctx.count("e2e_retries_checked")
     finally:
         t.close()
+
+
+# ------------------------------------------------------------------------------------------ C14: spellings through every entry point
+def _respell(rng, p):
+    """a spelling of p that differs only by '.', empty and resolvable '..' components and repeated slashes"""
+    comps = p.split("/")
+    out = []
+    if rng.random() < 0.3:
+        out.append(".")
+    for i, c in enumerate(comps):
+        x = rng.random()
+        if x < 0.25:
+            out.append(".")
+        elif x < 0.45:
+            out += [rng.choice(("zz", "o", "tmp")), ".."]
+        elif x < 0.6 and out:
+            out.append("")            # an empty component: a doubled slash (not in front: that would make the path absolute)
+        out.append(c)
+    s = "/".join(out)
+    return s if s != p else "./" + p
+
+
+def c14_entry_case(ctx, seed):
+    """The same small project written twice: with canonical paths everywhere, and with every occurrence of every path -
+    manifest outputs and inputs, default and command-line targets, depfile targets (first and further ones) and depfile
+    dependencies - respelled independently.  Both must do the same thing at every step."""
+    rng = random.Random(seed)
+    mode = rng.choice(("depfile", "depfile", "gcc"))
+    P = {"out": "o/x.o", "out2": "o/x.map", "src": "s/a.c", "hdr": "h/h.h", "hdr2": "h/sub/g.h", "fin": "bin/final"}
+
+    def manifest(sp):
+        dep_line = "%s%s: %s %s %s" % (sp("out"), (" " + sp("out2")) if mode == "depfile" and two_targets else "", sp("src"), sp("hdr"), sp("hdr2"))
+        L = ["rule cc",
+             "  command = cp $in %s && cp $in %s && printf '%%s\\n' '%s' > %s.d" % (P["out"], P["out2"], dep_line, P["out"]),
+             "  description = CC",
+             "  depfile = %s.d" % sp("out")]
+        if mode == "gcc":
+            L.append("  deps = gcc")
+        L += ["rule cat", "  command = cat $in > $out", "  description = CAT",
+              "build %s%s: cc %s" % (sp("out"), (" | " + sp("out2")) if mode == "gcc" else (" " + sp("out2")), sp("src")),
+              "build %s: cat %s %s" % (sp("fin"), sp("out"), sp("out2")),
+              "default %s" % sp("fin")]
+        return "\n".join(L) + "\n"
+    two_targets = rng.random() < 0.6
+    results = {}
+    rep = {"seed": seed, "mode": mode}
+    for variant in ("canonical", "respelled"):
+        sp = (lambda k: P[k]) if variant == "canonical" else (lambda k: _respell(rng, P[k]))
+        t = Tree()
+        try:
+            for k in ("src", "hdr", "hdr2"):
+                t.write(P[k], "// %s\n" % k)
+            text = manifest(sp)
+            t.write("build.ninja", text)
+            rep["manifest_" + variant] = text
+            seq = []
+
+            def step(args, label):
+                rc, so, se = t.run(args)
+                txt = (so + se).decode("latin-1")
+                sig = util.san_signature(txt)
+                ran = sorted(re.findall(r"\] (CC|CAT)", txt))
+                seq.append((label, rc, tuple(ran), "no work to do" in txt, sig or "", txt[-300:] if rc else ""))
+            step([], "first build")
+            step([], "again")
+            t.touch(P["hdr2"])
+            step([], "after touching a header named only in the depfile")
+            step([], "again")
+            step([sp("out")] if variant == "respelled" else [P["out"]], "command-line target")
+            t.touch(P["src"])
+            step([sp("fin")] if variant == "respelled" else [P["fin"]], "after touching the source, target given on the command line")
+            rc, so, se = t.run(["-t", "query", sp("out2") if variant == "respelled" else P["out2"]])
+            seq.append(("query", rc, tuple(so.decode("latin-1").split("\n")[:1]), False, "", ""))
+            if mode == "gcc":
+                rc, so, se = t.run(["-t", "deps", sp("out") if variant == "respelled" else P["out"]])
+                seq.append(("deps", rc, tuple(l.strip() for l in so.decode("latin-1").split("\n")[1:] if l.strip()), False, "", ""))
+            results[variant] = seq
+        finally:
+            t.close()
+    ctx.evaluations += 2
+    ctx.count("entry_point_scenarios_%s" % mode)
+    a, b = results["canonical"], results["respelled"]
+    for (la, rca, rana, nwa, siga, erra), (lb, rcb, ranb, nwb, sigb, errb) in zip(a, b):
+        if sigb or siga:
+            ctx.violation("C14/entry-points/sanitizer/" + (sigb or siga), "scenario %d step %s" % (seed, la), rep)
+            return
+        if (rca, rana, nwa) != (rcb, ranb, nwb):
+            ctx.violation("C14/entry-points/%s/%s" % (mode, la.split(",")[0].replace(" ", "-")),
+                          "scenario %d (%s), step '%s': with canonical paths exit %s ran %s; with respelled paths exit %s ran %s %s" %
+                          (seed, mode, la, rca, list(rana), rcb, list(ranb), errb), rep)
+            return
+    ctx.count("entry_point_steps_equal", len(a))
